@@ -35,6 +35,22 @@ def check_roundtrip(ctx, case) -> None:
     spec, ys, mode = case["term"], [float(v) for v in case["ys"]], case.get("mode", "1d")
     cls, h = spec["cls"], float(spec.get("h", 1.0))
     t = build.mk_term(spec)
+    if case.get("prev") is not None:
+        # the same object first holds another parameterisation and is used, then its public parameter attributes are
+        # assigned: the inverse refers to the term's current parameters
+        t = build.mk_term(case["prev"])
+        hp = float(case["prev"].get("h", 1.0))
+        t.tsukamoto(hp / 2)
+        t.tsukamoto(np.array([hp / 4, hp / 2]))
+        t.membership(0.0)
+        attrs = [k for k in vars(t) if k not in ("name", "height") and not k.startswith("_")]
+        if len(attrs) == len(spec["p"]):
+            for k, v in zip(attrs, spec["p"]):
+                setattr(t, k, float(v))
+            t.height = h
+            ctx.cls("reparameterised_in_place")
+        else:
+            t = build.mk_term(spec)
     ctx.cls("class:" + cls + ("+" if refmath.direction(spec) > 0 else "-"))
     ctx.check(t.is_monotonic() is True, "is_monotonic", {"term": spec, "ys": []})
     zs = []
@@ -120,9 +136,15 @@ def y_values(draw, h):
 @st.composite
 def rt_cases(draw):
     spec = draw(gen.shape_term(cls=draw(st.sampled_from(MONO))))
+    if draw(st.integers(0, 5)) == 0:
+        # heights within (and just outside) the library's comparison tolerance of 1, and tiny heights
+        spec["h"] = draw(st.sampled_from([0.9995, 0.9991, 0.999, 0.9999, 0.998, 0.99, 1 - 2.0 ** -20, 0.001, 0.0005]))
     n = draw(st.sampled_from([1, 2, 4, 6, 10]))
     ys = draw(st.lists(y_values(spec["h"]), min_size=n, max_size=n))
-    return {"term": spec, "ys": ys, "mode": draw(st.sampled_from(["scalar", "1d", "2d"]))}
+    prev = None
+    if draw(st.integers(0, 3)) == 0:
+        prev = dict(draw(gen.shape_term(cls=spec["cls"])), name=spec.get("name", "t"))
+    return {"term": spec, "ys": ys, "mode": draw(st.sampled_from(["scalar", "1d", "2d"])), "prev": prev}
 
 
 @st.composite
@@ -130,6 +152,13 @@ def refusal_cases(draw):
     others = [c for c in refmath.SHAPES if c not in MONO] + ["Constant", "Linear", "Function"]
     cls = draw(st.sampled_from(others))
     spec = {"cls": cls} if cls in ("Linear", "Function") else draw(gen.shape_term(cls=cls))
+    if cls == "Discrete" and draw(st.booleans()):
+        # strictly increasing / decreasing membership values: still not one of the six monotonic term classes
+        n = len(spec["p"]) // 2
+        ysm = [(i + 1) / (n + 1) for i in range(n)]
+        if draw(st.booleans()):
+            ysm.reverse()
+        spec["p"] = [v for pair in zip(spec["p"][0::2], ysm) for v in pair]
     ys = draw(st.lists(st.floats(0.001, 0.999), min_size=1, max_size=3))
     return {"term": spec, "ys": ys}
 
